@@ -24,7 +24,7 @@ def case(draw, tier):
     kinds = ('tri', 'quad', 'tet', 'hex') + (('line',) if fmt in ('json', 'dict', 'npz') else ())
     desc = draw(gm.mesh(kinds=kinds, max_cells=16, max_cells_3d=8, order2=not first_only, curved=True))
     nc = len(desc['t'][0])
-    tg = draw(gt.tags(nc, oriented=True, maxnames=3, names=draw(st.booleans())))
+    tg = draw(gt.tags(nc, oriented=True, maxnames=3, names=draw(st.booleans()), empty_boundaries=True))
     return dict(mesh=desc, tags=tg, fmt=fmt, pdata=draw(st.booleans()), cdata=draw(st.booleans()),
                 seed=draw(st.integers(0, 10**6)))
 
